@@ -18,7 +18,7 @@ META = dict(
           "calls first]: for every byte string, start position and flavour the loop ends with the cursor between its start and the end of the buffer "
           "[skipWS_stays_in_buffer], always terminates (the remaining length is enough fuel) [skipWS_never_out_of_fuel, skip_total], passes over nothing but blanks, line ends "
           "when asked to, and whole comments [skipWS_drops_only_blanks_and_comments], stops only at the end or at a legal byte that is not blank and starts no comment "
-          "[skipWS_stops_at_token_start]; a // or # comment never passes a line feed and stops exactly at its line end [line_comment_stays_on_its_line, "
+          "[skipWS_stops_at_token_start], so a second call moves nothing [skip_idempotent]; a // or # comment never passes a line feed and stops exactly at its line end [line_comment_stays_on_its_line, "
           "line_comment_stops_at_line_end]; a block comment ends at the FIRST */ [block_comment_ends_at_first_close]. Tied by calling the real SkipWS through the hook on a "
           "buffer with no terminator behind it (ASan sees any read past the end) from every start index: return value, cursor index, line and column must equal the model's and "
           "an independent regex reading. EVERY OPERAND IS ACCOUNTED FOR (model-free): expressions `operand op operand …` whose operands are literal spellings, valid and "
